@@ -12,11 +12,17 @@
       is exactly the flat program the engine compiles);
     - the faithful model of the engine ([Wasm/Compile.v], [Wasm/Machine.v]) REFUTES the
       unguarded conformance statement: witnesses for findings F1, F2 (if and loop form) and F3.
-    NOT proved (correspondence-only, see design/C01.md): the simulation
-    [compile_straightline_correct] / [compile_correct]. *)
+    - [numops_agree], [unops_agree], [tests_and_conversions_agree], [relops_agree]: every machine numeric
+      operator = the specification operator (except rem_s at (MIN,-1), finding F3);
+    - [compile_straightline_correct_partial]: the simulation for straight-line code of any length
+      (all opcodes without control flow except rem_s).
+    NOT proved (correspondence-only, see design/C01.md): [compile_correct] for control flow
+    (block/loop/if/br/br_table/return/call). *)
 From Coq Require Import ZArith NArith List Bool.
 From CB Require Import Common.IntN Common.IntNProofs Wasm.Syntax Wasm.SyntaxProofs Wasm.Sem Wasm.SemProofs
-     Wasm.Compile Wasm.Machine Wasm.KnownClasses Wasm.Engine Wasm.Witnesses Wasm.EngineProofs Wasm.NumOpsProofs.
+     Wasm.Compile Wasm.Machine Wasm.KnownClasses Wasm.Engine Wasm.Witnesses Wasm.EngineProofs Wasm.NumOpsProofs
+     Wasm.MachineLemmas Wasm.CompileLemmas Wasm.StraightProofs Wasm.StraightExample.
+From Coq Require Import FMapPositive.
 Import ListNotations.
 Local Open Scope Z_scope.
 
@@ -171,17 +177,31 @@ Proof.
 Qed.
 Print Assumptions rem_s_min_m1_refuted.
 
-(** ** machine operators vs specification operators.  PARTIAL: add, sub, mul, div_u, rem_u, shl,
-    shr_u and all ten comparisons; div_s, rem_s (away from MIN,-1), and, or, xor, shr_s, rotl, rotr,
-    clz, ctz, popcnt, conversions are correspondence-only (design/C01.md). *)
-Theorem numops_agree_partial : forall t op x y,
-  In op proved_binops -> in_range (bits t) x -> in_range (bits t) y ->
+(** ** machine operators ([Machine.rs_*], transcribed from the Rust integer methods) vs the
+    specification's operators ([IntN]): ALL numeric opcodes, all operands.  The only exception is
+    finding F3: [rem_s] at (MIN, -1) ([rem_s_min_m1_refuted] above), excluded by [f3_operands]. *)
+Theorem numops_agree : forall t op x y,
+  in_range (bits t) x -> in_range (bits t) y -> (op = RemS -> ~ f3_operands (bits t) x y) ->
   match rs_binop (bits t) op (signed (bits t) x) (signed (bits t) y) x y with
   | inr r => app_binop t op x y = Some (r mod 2 ^ bits t)
   | inl _ => app_binop t op x y = None
   end.
-Proof. exact rs_binop_agrees. Qed.
-Print Assumptions numops_agree_partial.
+Proof. exact rs_binop_agrees_all. Qed.
+Print Assumptions numops_agree.
+
+Theorem unops_agree :
+  (forall op x, in_range 32 x -> op <> Extend32S -> app_unop T_i32 op x = Some (rs_unop32 op x mod 2 ^ 32))
+  /\ (forall op x, in_range 64 x -> app_unop T_i64 op x = Some (rs_unop64 op x mod 2 ^ 64)).
+Proof. exact (conj rs_unop32_agrees rs_unop64_agrees). Qed.
+Print Assumptions unops_agree.
+
+Theorem tests_and_conversions_agree : forall x,
+  ((in_range 32 x -> rs_eqz32 x = ieqz 32 x) /\ (in_range 64 x -> rs_eqz64 x = ieqz 64 x))
+  /\ (in_range 64 x -> rs_cvt WrapI64 x mod 2 ^ 32 = iwrap 64 32 x)
+  /\ (in_range 32 x -> rs_cvt ExtendI32S x mod 2 ^ 64 = iextend_s 32 64 x)
+  /\ (in_range 32 x -> rs_cvt ExtendI32U x mod 2 ^ 64 = iextend_u 32 64 x).
+Proof. exact (fun x => conj (rs_eqz_agrees x) (rs_cvt_agrees x)). Qed.
+Print Assumptions tests_and_conversions_agree.
 
 Theorem relops_agree : forall t op x y, in_range (bits t) x -> in_range (bits t) y ->
   rs_relop op (signed (bits t) x) (signed (bits t) y) x y = app_relop t op x y.
@@ -192,6 +212,71 @@ Theorem machine_views_are_signed : forall x,
   (in_range 32 x -> as_i32 x = signed 32 x) /\ (in_range 64 x -> as_i64 x = signed 64 x).
 Proof. exact (fun x => conj (as_i32_signed x) (as_i64_signed x)). Qed.
 Print Assumptions machine_views_are_signed.
+
+(** ** compile_straightline_correct (DESIGN 7.C01 theorem 2) — PARTIAL in the opcode subset only.
+
+    For every sequence [bs] of basic instructions accepted by [straight_ok] — nop, drop, select,
+    consts (in range), local.get/set/tee, global.get/set, every unary/binary/relational/conversion
+    operator and the sign-extension operators, memory loads and stores of every width (sign- and
+    zero-extending), memory.size, memory.grow; EXCLUDED: [rem_s] (finding F3), calls and control
+    instructions (and the ill-typed combinations i32.extend32_s / i32 with a 32-bit pack) — of ANY
+    length, that [Compile.v]
+    accepts from an empty provider stack: running the emitted bytes on [Machine.v] from any state
+    related to the specification state ([rel]: registers [0,nl) represent the locals, globals and
+    memory agree) reaches a state related to the specification's result: every provider on the final
+    compile-time stack denotes the value at that position of the operand stack, locals, globals and
+    memory agree; and the machine traps whenever the specification traps.
+    The statement is about the same [compile_ops] / [step] functions that correspondence layers
+    (i) and (ii) tie to artifact.rs and machine.rs. *)
+Theorem compile_straightline_correct_partial :
+  forall (art : artifact) (mhost : nat -> list Z -> option (option Z)) (cap : N) (cx : cctx)
+         (bs : list binstr) (ret : blocktype) (nl next : Z) (v' : vstate) (sf : cstate),
+    forallb straight_ok bs = true ->
+    0 <= nl <= next ->
+    compile_ops cx (map OBasic bs) (init_vstate ret) (init_cstate next) = Some (v', sf) ->
+    c_next sf < 2147483648 -> Z.of_nat (length (c_consts sf)) < 2147483648 ->
+    forall (codes : list (code_map * list Z)) (fidx : nat) (rest_code : list N),
+      nth_error codes fidx
+        = Some (build_code (c_out sf ++ rest_code) xH (PositiveMap.empty N), map fst (c_consts sf)) ->
+      forall (st : store) (locals : list val) (M : mstate),
+        rel art fidx (map fst (c_consts sf)) nl (c_next sf) cap (init_cstate next) st locals [] M ->
+        sim_result art mhost codes fidx (map fst (c_consts sf)) nl (c_next sf) cap M sf
+                   (straight_sem cap bs st locals []).
+Proof. exact straightline_correct. Qed.
+Print Assumptions compile_straightline_correct_partial.
+
+(** [straight_sem] is the reference interpreter on such code *)
+Theorem straight_sem_is_exec_seq : forall host cap m bs fuel s locals vs,
+  forallb straight_ok bs = true -> (length bs + 2 <= fuel)%nat ->
+  exec_seq host cap m fuel s locals vs (map Basic bs) =
+  match straight_sem cap bs s locals vs with
+  | inr (s', l', vs') => RNormal s' l' vs'
+  | inl true => RTrap
+  | inl false => RStuck
+  end.
+Proof. exact exec_seq_straight. Qed.
+Print Assumptions straight_sem_is_exec_seq.
+
+(** non-vacuity of the hypotheses: register reuse, constant pooling, a preservation copy and a
+    short-circuited local.set in one accepted sequence *)
+Example straightline_nonvacuous :
+  forallb straight_ok ex_bs = true
+  /\ exists v' sf, compile_ops ex_cx (map OBasic ex_bs) (init_vstate (Some T_i32)) (init_cstate 2) = Some (v', sf)
+       /\ c_stack sf = [PDyn 2] /\ c_next sf = 3
+       /\ map fst (c_consts sf) = [5; 7]
+       /\ firstn 9 (c_out sf) = [ICopy; 0; 0; 0; 0; 2; 0; 0; 0]%N
+       /\ nth 31 (c_out sf) 0%N = 61%N /\ nth 40 (c_out sf) 0%N = 1%N
+       /\ c_next sf < 2147483648 /\ Z.of_nat (length (c_consts sf)) < 2147483648.
+Proof. exact ex_straight. Qed.
+Print Assumptions straightline_nonvacuous.
+
+Example straightline_memory_nonvacuous :
+  forallb straight_ok ex_bs_mem = true
+  /\ exists v' sf, compile_ops ex_cx (map OBasic ex_bs_mem) (init_vstate (Some T_i32)) (init_cstate 2) = Some (v', sf)
+       /\ length (c_stack sf) = 1%nat /\ map fst (c_consts sf) = [16; 1]
+       /\ c_next sf < 2147483648 /\ Z.of_nat (length (c_consts sf)) < 2147483648.
+Proof. exact ex_straight_mem. Qed.
+Print Assumptions straightline_memory_nonvacuous.
 
 (** non-vacuity: a module outside the classes on which specification and engine model agree *)
 Example outside_classes_agree :
